@@ -150,6 +150,32 @@ def lowbase(prog, new=100, old=BASE):
     return p
 
 
+# ------------------------------------------------------------------ vacuity bookkeeping for @if (counting only; TLC judges)
+_REL = {'>=': lambda v, n: v >= n, '==': lambda v, n: v == n, '<': lambda v, n: v < n, '>': lambda v, n: v > n,
+        '!=': lambda v, n: v != n}
+_EXEC = {'isub': ('a', 1), 'ssub': ('a', 2), 'rsub': ('a', 3), 'ofix': ('f', 1), 'bfix': ('f', 2), 'rfix': ('f', 3)}
+
+
+def if_classes(prog, am, fm):
+    """-> [(class of the wrapped directive, condition value in mode (am, fm), wrapped directive in force there)] for the
+    @if lines over {asm} / {fix}; class: 'rem', 'sub-flagged', 'sub-plain', 'org', 'lab', 'keep', 'nowarn', 'data', 'bytes'"""
+    out = []
+    for ln in prog:
+        if ln['l'] != 'if' or ln['var'] not in ('asm', 'fix'):
+            continue
+        val = bool(_REL[ln['rel']](am if ln['var'] == 'asm' else fm, ln['n']))
+        y = ln['yes']
+        cls = y['l']
+        if cls == 'sub':
+            cls = 'sub-flagged' if y['pre'] or y['ovw'] or y['app'] or y['fin'] else 'sub-plain'
+        live = val
+        if y['l'] in ('sub', 'rem'):
+            w, lvl = _EXEC[y['kind']]
+            live = val and (am if w == 'a' else fm) >= lvl
+        out.append((cls, val, live))
+    return out
+
+
 # ------------------------------------------------------------------ rendering
 def num(rnd, v, width=0):
     if rnd is not None and rnd.random() < 0.35:
@@ -239,10 +265,16 @@ def line_text(ln, rnd):
     if k == 'bytes':
         return ['@bytes=' + ','.join(num(rnd, v) for v in ln['vals'])]
     if k == 'if':
-        yes = sub_text(ln['yes'], rnd)
-        no = sub_text(ln['no'], rnd) if ln['no']['l'] != 'none' else None
-        body = '~~%s~%s~~' % (yes, no) if no is not None else '~~%s~~' % yes
-        return ['@if({%s}%s%d)%s' % (ln['var'], ln['rel'], ln['n'], body)]
+        # the wrapped directive is written exactly as it would be on a line of its own, without the '@'
+        yes = line_text(ln['yes'], rnd)[0][1:]
+        no = line_text(ln['no'], rnd)[0][1:] if ln['no']['l'] != 'none' else None
+        plain = not any(ch in t for t in (yes, no or '') for ch in ',()')
+        if plain and (rnd is None or rnd.random() < 0.6):
+            body = '(%s,%s)' % (yes, no) if no is not None else '(%s)' % yes        # the form of asm.rst
+        else:
+            body = '~~%s~%s~~' % (yes, no) if no is not None else '~~%s~~' % yes
+        var = '{vars[v]}' if ln['var'] == 'vars' else '{%s}' % ln['var']
+        return ['@if(%s%s%d)%s' % (var, ln['rel'], ln['n'], body)]
     if k == 'gap':
         return ['', '; Entry']
     raise MachineryError('line ' + k)
